@@ -17,6 +17,9 @@ var Corpus = [][]string{
 	{"c create p1 127.0.0.1:$A u:1", "h fetch h1 p1", "h set h1 localhost:$A u:1", "h save h1", "h disable h1", "h enable h1", "c get p1"},
 	{"c create p1 127.0.0.1:$A u:1", "h fetch h1 p1", "h set h1 :$B u:2", "h save h1", "h save h1", "h disable h1", "h enable h1"},
 	{"c create p1 127.0.0.1:$A u:1", "h fetch h1 p1", "h disable h1", "h set h1 localhost:$B u:2", "h enable h1", "c get p1"},
+	// attribute values beyond float32's integer range, through the CLI and through the client
+	{"c create p1 127.0.0.1:$A u:1", `cli tadd p1 t1 limit_data 0 - {"bytes":2147483647}`, `cli tupd p1 t1 - {"bytes":5000000001}`, "c toxics p1",
+		`c add p1 t2 latency upstream - {"latency":16777217}`, `cli tupd p1 t2 - {"latency":20000001,"jitter":123456789}`, "c toxics p1"},
 	// C19 (fixed): `toxiproxy-cli toxic update` without --toxicity must keep the toxic's toxicity
 	{"c create p1 127.0.0.1:$A u:1", `c add p1 t1 latency downstream 0.3 {"latency":5}`, `cli tupd p1 t1 - {"jitter":7}`, "c toxics p1"},
 }
@@ -26,11 +29,11 @@ func pick(r *rng.R, xs ...string) string { return xs[r.Intn(len(xs))] }
 func attrs(r *rng.R, ty string) string {
 	switch ty {
 	case "latency":
-		return pick(r, `{"latency":5}`, `{"latency":100,"jitter":10}`, `{"jitter":7}`, `{}`, `{"latency":1.5}`, `{"latency":"x"}`)
+		return pick(r, `{"latency":5}`, `{"latency":100,"jitter":10}`, `{"jitter":7}`, `{}`, `{"latency":1.5}`, `{"latency":"x"}`, `{"latency":16777217}`, `{"latency":20000001,"jitter":123456789}`)
 	case "timeout":
 		return pick(r, `{"timeout":0}`, `{"timeout":500}`, `{}`)
 	case "limit_data":
-		return pick(r, `{"bytes":100}`, `{}`)
+		return pick(r, `{"bytes":100}`, `{}`, `{"bytes":2147483647}`, `{"bytes":5000000001}`)
 	case "slicer":
 		return pick(r, `{"average_size":64,"size_variation":8,"delay":10}`, `{"delay":1}`)
 	}
